@@ -170,6 +170,11 @@ class NamespaceMixin(object):
                 raise RuntimeError(
                     "Missing name in declaration: '{}'".format(decl)
                 )
+            if not isinstance(ast.name, str):
+                raise RuntimeError(
+                    "'name' attribute must have a value of the form "
+                    "+name(value) in '{}'".format(decl)
+                )
             if "typedef" in ast.storage:
                 node = self.add_typedef(decl, ast=ast, **kwargs)
             elif ast.params is None:
@@ -1821,6 +1826,11 @@ class VariableNode(AstNode):
         if ast.params is not None:
             # 'void foo()' instead of 'void foo'
             raise RuntimeError("Arguments given to variable:", ast.gen_decl())
+        if not isinstance(ast.name, str):
+            raise RuntimeError(
+                "Variable needs a name, and a 'name' attribute a value "
+                "of the form +name(value): " + decl
+            )
         self.ast = ast
         self.name = ast.name
 
